@@ -323,6 +323,10 @@ def _geom_on_template(rng, typ, t, f):
 
 def run(ctx):
     rng = ctx.rng
+    from rv.props import concurrent_jobs
+
+    concurrent_jobs.run_some(ctx, "C20")        # the same calls from a thread pool (rv/core/threads.py)
+    ctx.must_monitors.append("concurrent_calls")
     ctx.rule = ("(template axes + dimension order, geometry list, values, fill, dtype); templates 1x1..40x25 square and non-square, regular and irregular axes; "
                 "non-trivial = non-square template or >= 2 geometries; distinct = distinct case spec")
     ctx.assumptions += ["exact cell rule judged for areal geometries (BoundingBox, TimeInterval, Polygon, MultiPolygon); cells whose centre lies within 1e-9 of the index-space outline, "
@@ -368,6 +372,20 @@ def run(ctx):
         if ng >= 3 and rng.random() < 0.35:
             # the same geometry listed again later (a call annotated twice): it is painted again, over whatever came between
             gspecs[-1] = gspecs[rng.randrange(ng - 2)]
+        if rng.random() < 0.3:
+            # a geometry of ANOTHER type with the same coordinates payload / the same shape in the same call (a contour and
+            # its nodes, a ring as outline and as polygon, a point and an interval): each is burnt as what IT is
+            tw = geoms.lookalikes(rng.choice(gspecs))
+            if not tw or rng.random() < 0.5:
+                # (areal types have few look-alikes: start from a line / point and add its areal twin)
+                _, base = _geom_on_template(rng, rng.choice(["LineString", "LineString", "MultiLineString", "Point", "TimeStamp"]), t, f)
+                tw = [x for x in geoms.lookalikes(base) if x["type"] in geoms.AREAL] or geoms.lookalikes(base)
+                if tw:
+                    gspecs.append(base)
+                    ng += 1
+            if tw:
+                gspecs.insert(rng.randrange(len(gspecs) + 1), rng.choice(tw))
+                ng += 1
         dtype = rng.choice(["float32", "float64", "uint8", "int16", "float32"])
         fill = rng.choice([0, 0, -1, float("nan")])
         if dtype == "uint8" and (fill == -1 or fill != fill):
